@@ -580,6 +580,16 @@ def query_all(m, x):
             out[q] = hexarr(getattr(m, q)(x))
         except BaseException as ex:  # noqa
             out[q] = "exc:" + exc_name(ex)
+    if hasattr(m, "cdf") and np.ndim(x) == 1:
+        # the quantile / cdf pair on the array route and with one float for all elements (sweep class 1: use - change - use again)
+        units = np.array([(5 + 7 * j) % 29 / 32.0 + 1 / 64.0 for j in range(len(x))])
+        for q, f in (("cdf", lambda: m.cdf(x)), ("value_for", lambda: m.value_for(units)),
+                     ("value_for_float", lambda: m.value_for(0.25)), ("ppf", lambda: m.ppf(units)),
+                     ("cdf_value_for", lambda: m.cdf(m.value_for(units)))):
+            try:
+                out[q] = hexarr(f())
+            except BaseException as ex:  # noqa
+                out[q] = "exc:" + exc_name(ex)
     try:
         out["check_valid"] = hexarr(m.check_valid())
     except BaseException as ex:  # noqa
@@ -733,7 +743,248 @@ def run_mixedparam(c):
     return out
 
 
+# --------------------------------------------------------------------------- routes (argument types / vectorised calls)
+def _num(v):
+    return hexf(float(v))
+
+
+def run_route(c):
+    """every number-taking public function of a message called through every argument representation (python float,
+    np.float64, np.float32, int, 0-d / 1-element / k-element / (k, n) arrays, a float broadcast over an array message);
+    the reference is the SCALAR route: one scalar message per element, one python float per call"""
+    m = build(c["msg"])
+    transformed = isinstance(m, TransformedMessage)
+    b = m.base_message if transformed else m
+    out = {"desc": describe(m)}
+    bdesc = out["desc"]["base"] if transformed else out["desc"]
+    elems = bdesc["elems"]
+    n = len(elems)
+    scalar = m.shape == ()
+    stack = out["desc"]["t"]["stack"] if transformed else []
+    ones = []
+    for e in elems:
+        one = type(b)(*[unhex(h) for h in e])
+        ones.append(TransformedMessage(one, *m.transforms) if transformed else one)
+    U = [[unhex(h) for h in r] for r in c["u"]]
+    X = [[unhex(h) for h in r] for r in c["x"]]
+    k = len(U)
+    has_q = hasattr(b, "cdf")
+    funcs = ["logpdf", "pdf"] + (["value_for", "cdf", "cdf_vf"] if has_q else []) + (["ppf"] if hasattr(m, "ppf") else [])
+
+    def call(obj, f, arg):
+        if f == "cdf_vf":
+            return obj.cdf(obj.value_for(arg))
+        return getattr(obj, f)(arg)
+
+    def pts(f):
+        return U if f in ("value_for", "cdf_vf", "ppf") else X
+
+    # reference: scalar messages, python floats
+    ref = {}
+    for f in funcs:
+        try:
+            ref[f] = [[_num(call(ones[j], f, float(pts(f)[i][j]))) for j in range(n)] for i in range(k)]
+        except BaseException as ex:  # noqa
+            ref[f] = "exc:" + exc_name(ex) + ": " + str(ex)[:120]
+    out["ref"] = ref
+    # library quantile / cdf of the base family (independent of the anchored code)
+    if has_q:
+        lq, lc = [], []
+        for i in range(k):
+            qr, cr = [], []
+            for j in range(n):
+                one = ones[j].base_message if transformed else ones[j]
+                d = base_dist(one)
+                qr.append(_num(d.ppf(U[i][j])))
+                y, _ = chain(stack, X[i][j])
+                cr.append(_num(d.cdf(float(y))))
+            lq.append(qr)
+            lc.append(cr)
+        out["lib_q"], out["lib_cdf"] = lq, lc
+
+    def grid(v, shape_ok):
+        a = np.asarray(v, dtype=float)
+        if a.size != k * n:
+            return "shape:%r" % (list(a.shape),)
+        if shape_ok is not None and tuple(a.shape) not in shape_ok:
+            return "shape:%r" % (list(a.shape),)
+        return [[_num(z) for z in r] for r in a.reshape(k, n)]
+
+    def pointwise(f, conv, only_int=False):
+        P = pts(f)
+        rows = []
+        for i in range(k):
+            row = []
+            for j in range(n):
+                p = P[i][j]
+                if only_int and p != int(p):
+                    row.append(None)
+                    continue
+                v = np.asarray(call(m, f, conv(p)), dtype=float)
+                if v.size != 1:
+                    return "shape:%r" % (list(v.shape),)
+                row.append(_num(v.reshape(())))
+            rows.append(row)
+        return rows
+
+    routes = {}
+    if scalar:
+        plan = [("float", lambda f: pointwise(f, float)),
+                ("f64", lambda f: pointwise(f, np.float64)),
+                ("f32", lambda f: pointwise(f, np.float32)),
+                ("int", lambda f: pointwise(f, int, True)),
+                ("0d", lambda f: pointwise(f, lambda p: np.array(p))),
+                ("1el", lambda f: pointwise(f, lambda p: np.array([p]))),
+                ("vec", lambda f: grid(call(m, f, np.array([r[0] for r in pts(f)])), [(k,)])),
+                ("vec32", lambda f: grid(call(m, f, np.array([r[0] for r in pts(f)], dtype=np.float32)), [(k,)])),
+                ("col", lambda f: grid(call(m, f, np.array(pts(f))), [(k, 1)])),
+                ("float-again", lambda f: pointwise(f, float))]
+    else:
+        def per_row(f, dtype):
+            rows = []
+            for r in pts(f):
+                v = np.asarray(call(m, f, np.array(r, dtype=dtype)), dtype=float)
+                if v.shape != (n,):
+                    return "shape:%r" % (list(v.shape),)
+                rows.append([_num(z) for z in v])
+            return rows
+
+        def bcast(f):     # one python float for all elements of the array message
+            rows = []
+            for r in pts(f):
+                v = np.asarray(call(m, f, float(r[0])), dtype=float)
+                if v.shape != (n,):
+                    return "shape:%r" % (list(v.shape),)
+                rows.append([_num(z) for z in v])
+            return rows
+
+        plan = [("row", lambda f: per_row(f, float)),
+                ("row32", lambda f: per_row(f, np.float32)),
+                ("batch", lambda f: grid(call(m, f, np.array(pts(f))), [(k, n)])),
+                ("bcast", bcast),
+                ("row-again", lambda f: per_row(f, float))]
+    for name, fn in plan:
+        routes[name] = {}
+        for f in funcs:
+            if f in ("logpdf", "pdf") and name in ("col", "bcast"):
+                continue      # logpdf documents a ValueError unless x.shape is m.shape or (k,) + m.shape
+            try:
+                routes[name][f] = fn(f)
+            except BaseException as ex:  # noqa
+                routes[name][f] = "exc:" + exc_name(ex) + ": " + str(ex)[:120]
+    if not scalar:
+        # reference of the broadcast route: element j at the first point of the row
+        rb = {}
+        for f in funcs:
+            try:
+                rb[f] = [[_num(call(ones[j], f, float(pts(f)[i][0]))) for j in range(n)] for i in range(k)]
+            except BaseException as ex:  # noqa
+                rb[f] = "exc:" + exc_name(ex)
+        out["ref_bcast"] = rb
+    out["routes"] = routes
+    out["funcs"] = funcs
+    if type(m) is NormalMessage:
+        # oracle table of erfinv for the model: keys by an independent re-computation of the argument, values from scipy
+        tab = {}
+        for r in U:
+            for u in r:
+                a = 1 - 2.0 * (1.0 - float(u))
+                tab[hexf(a)] = hexf(float(special.erfinv(a)))
+        out["erfinv_tab"] = sorted(tab.items())
+    # the real exponent / factor of ** , * , / in every representation of one real number
+    kv, sv = unhex(c.get("k", hexf(2.0))), unhex(c.get("s", hexf(2.0)))
+    reps = [("float", float), ("f64", np.float64), ("f32", np.float32), ("0d", lambda v: np.array(v)),
+            ("int", int), ("i64", np.int64)]
+    sc = {}
+    for op, val, fn in (("pow", kv, lambda r: m ** r), ("smul", sv, lambda r: m * r), ("rmul", sv, lambda r: r * m),
+                        ("sdiv", sv, lambda r: m / r)):
+        sc[op] = {}
+        for rn, conv in reps:
+            if rn in ("int", "i64") and val != int(val):
+                continue
+            try:
+                r = fn(conv(val))
+                dd = describe(r)
+                bb = dd["base"] if "t" in dd else dd
+                ln = bb["log_norm"]
+                sc[op][rn] = {"wrap": dd.get("t"), "cls": bb["cls"], "elems": bb["elems"], "id": bb["id"], "lo": bb["lo"],
+                              "hi": bb["hi"], "log_norm": ln if isinstance(ln, list) else [ln], "shape": bb["shape"]}
+            except BaseException as ex:  # noqa
+                sc[op][rn] = "exc:" + exc_name(ex) + ": " + str(ex)[:120]
+    out["scal"] = sc
+    # the PARAMETERS of a base message in every representation of the same reals (int, np.int64, np.float32, 0-d array;
+    # int64 / float32 arrays): every query against the message built from python floats / a float64 array
+    if c.get("pint"):
+        cls = FAMS[c["pfam"]]
+        P = [[float(unhex(h)) for h in col] for col in c["pint"]]
+        x0 = unhex(c["px"])
+
+        def queries(mm):
+            xx = np.full(mm.shape, x0) if mm.shape else x0
+            q = {}
+            for name, f in (("natural_parameters", lambda: mm.natural_parameters), ("logpdf", lambda: mm.logpdf(xx)),
+                            ("pow2", lambda: (mm ** 2.0).parameters), ("mul", lambda: (mm * mm).parameters),
+                            ("divmul", lambda: ((mm * mm) / mm).parameters), ("mean", lambda: mm.mean),
+                            ("variance", lambda: mm.variance), ("log_partition", lambda: mm.log_partition),
+                            ("value_for", lambda: mm.value_for(0.25) if hasattr(mm, "cdf") else 0.0),
+                            ("cdf", lambda: mm.cdf(xx) if hasattr(mm, "cdf") else 0.0), ("is_valid", lambda: mm.is_valid),
+                            ("shape", lambda: np.array(mm.shape, dtype=float)),
+                            ("fromnat", lambda: mm.from_natural_parameters(np.asarray(mm.natural_parameters, dtype=float)).parameters),
+                            ("fromnat_i64", lambda: mm.from_natural_parameters(nat_as_int(mm)).parameters),
+                            ("fromnat_direct", lambda: mm.from_natural_parameters(direct_nat(float)).parameters),
+                            ("fromnat_direct_i64", lambda: mm.from_natural_parameters(direct_nat(np.int64)).parameters)):
+                try:
+                    q[name] = [hexf(z) for z in np.asarray(f(), dtype=float).ravel()]
+                except BaseException as ex:  # noqa
+                    q[name] = "exc:" + exc_name(ex) + ": " + str(ex)[:100]
+            return q
+
+        def nat_as_int(mm):    # the natural parameters handed back as an integer array when they are integers
+            a = np.asarray(mm.natural_parameters, dtype=float)
+            return a.astype(np.int64) if np.all(a == np.round(a)) else a
+
+        def direct_nat(dtype):    # integer-valued natural parameters of a valid member, as a float or an integer array
+            e2 = [v if c["pfam"] == "beta" else -abs(v) for v in P[1]]
+            a = np.array([P[0], e2], dtype=dtype)
+            return a[:, 0] if len(P[0]) == 1 else a
+
+        pr = {}
+        if len(P[0]) == 1:
+            builders = [("float", lambda col: float(col[0])), ("int", lambda col: int(col[0])), ("i64", lambda col: np.int64(col[0])),
+                        ("f32", lambda col: np.float32(col[0])), ("0d", lambda col: np.array(col[0])),
+                        ("0d-int", lambda col: np.array(int(col[0])))]
+        else:
+            builders = [("float", lambda col: np.array(col, dtype=float)), ("i64", lambda col: np.array(col, dtype=np.int64)),
+                        ("f32", lambda col: np.array(col, dtype=np.float32)), ("i32", lambda col: np.array(col, dtype=np.int32))]
+        for rn, conv in builders:
+            try:
+                pr[rn] = queries(cls(*[conv(col) for col in P]))
+            except BaseException as ex:  # noqa
+                pr[rn] = "exc:" + exc_name(ex) + ": " + str(ex)[:100]
+        # mixed: the first parameter an int, the others floats
+        try:
+            mixed = [(int(P[0][0]) if len(P[0]) == 1 else np.array(P[0], dtype=np.int64))] + \
+                    [(float(col[0]) if len(col) == 1 else np.array(col, dtype=float)) for col in P[1:]]
+            pr["mixed"] = queries(cls(*mixed))
+        except BaseException as ex:  # noqa
+            pr["mixed"] = "exc:" + exc_name(ex) + ": " + str(ex)[:100]
+        out["prep"] = pr
+    # sample-size argument in every representation: the shape of the draw, every draw inside the support
+    sm = {}
+    lo_, hi_ = [float(v) for v in m._support[0]] if getattr(m, "_support", None) else (-np.inf, np.inf)
+    for rn, arg in (("none", None), ("int1", 1), ("int3", 3), ("i64", np.int64(3)), ("0d", np.array(3))):
+        try:
+            v = np.asarray(m.sample() if arg is None else m.sample(arg), dtype=float)
+            sm[rn] = {"shape": list(v.shape), "inside": bool(np.all((v >= lo_) & (v <= hi_))), "msg_shape": list(m.shape)}
+        except BaseException as ex:  # noqa
+            sm[rn] = "exc:" + exc_name(ex) + ": " + str(ex)[:100]
+    out["sample"] = sm
+    return out
+
+
 def run_case(c):
+    if c["kind"] == "route":
+        return run_route(c)
     if c["kind"] == "lpdf":
         return run_lpdf(c)
     if c["kind"] == "mixedparam":
